@@ -135,7 +135,7 @@ def generate(rng, tier):
         mask = (1 << 48) - 1
         for k in range(24 if tier == "quick" else 100):
             depth = rng.range(1, 5)
-            top1, top2 = 0x7fff0000, rng.choice([0x7fff0000, 0x10000, 0x7fff0000 + 0x1000 * rng.range(1, 100), (1 << 46) + 0x5550])
+            top1, top2 = 0x7fff0000, rng.choice([0x7fff0000, 0x4000000, 0x7fff0000 + 0x1000 * rng.range(1, 100), (1 << 46) + 0x5550])
             r1 = clone_rng(rng); sc1 = mt.make_scenario(r1, prog, bases[0], top1, depth)
             r2 = clone_rng(rng); sc2 = mt.make_scenario(r2, prog, bases[1], top2, depth)
             rng.s = r2.s
@@ -148,7 +148,8 @@ def generate(rng, tier):
                 s.add("newcache C")
                 lines.append(s.add("trace U%d C %s %s %s %d" % (which, hx(x["pc"]), regs, mid, len(sc["frames"]) + 3)))
             f = sc1["frames"][0]["func"]
-            s.meta[lines[0]] = {"twin": lines[1], "dm": bases[1] - bases[0], "ds": top2 - top1, "arch": arch, "deps": [lines[1]]}
+            s.meta[lines[0]] = {"twin": lines[1], "dm": bases[1] - bases[0], "ds": top2 - top1, "arch": arch, "deps": [lines[1]],
+                                "code": [bases[0], bases[0] + prog["end"] + 0x100]}
             s.tags[lines[0]] = "%s:macho:%s:%s" % (arch, f.shape, sc1["frames"][0]["phase"])
         out.append(("macho-reloc-%s-%d" % (arch, pi), s))
     return out
@@ -168,7 +169,11 @@ def judge(script, impl):
                 fpv = int(t[4][3:], 16)
                 if 0x7fff0000 - 0x100000 <= fpv <= 0x7fff0000 + 0x1000:      # a pointer into the (original) stack moves with it
                     fpv = (fpv + ds) & M64
-                return "ok %s 0x%x sp=0x%x fp=0x%x" % (t[1], (int(t[2], 16) + dm) & M64, (int(t[3][3:], 16) + ds) & M64, fpv)
+                av = int(t[2], 16)
+                code = m.get("code")
+                if code is None or code[0] <= av < code[1]:      # a word that is not a code address of the image does not move with it
+                    av = (av + dm) & M64
+                return "ok %s 0x%x sp=0x%x fp=0x%x" % (t[1], av, (int(t[3][3:], 16) + ds) & M64, fpv)
             if t[0] == "err" and t[1] == "CouldNotReadStack":
                 return "err CouldNotReadStack 0x%x" % ((int(t[2], 16) + ds) & M64)
             return item
